@@ -3,6 +3,8 @@ package main
 import (
 	"fmt"
 	"math/rand"
+	"regexp"
+	"strconv"
 	"strings"
 )
 
@@ -12,7 +14,8 @@ import (
 type gen struct {
 	r      *rand.Rand
 	domain bool
-	avail  []int // package indices importable from the target file
+	avail  []int // package indices imported by the target file x.go (the one handed to LoadPackages), plus the target package
+	avail2 []int // the same for the target package's second file y.go (nil: single-file package)
 	lines  []string
 	tags   map[string]bool
 	drift  string
@@ -26,6 +29,7 @@ const (
 	pkOdd = 4
 	pkDeep = 5
 	pkClash = 6
+	pkThird = 7 // scratch/third/v3, `package third`: never imported by x.go
 )
 
 // how the target file imports the package whose directory name differs from its package clause
@@ -41,13 +45,31 @@ var oddStyleTag = [...]string{"dir-differs-plain", "dir-differs-named-as-dir", "
 func (g *gen) emit(f string, a ...any) { g.lines = append(g.lines, "gcm "+fmt.Sprintf(f, a...)) }
 func (g *gen) tag(t string)             { g.tags[t] = true }
 func (g *gen) pick(xs []string) string  { return xs[g.r.Intn(len(xs))] }
-func (g *gen) has(p int) bool {
-	for _, x := range g.avail {
-		if x == p {
-			return true
+func (g *gen) has(p int) bool  { return contains(g.avail, p) }
+func (g *gen) has2(p int) bool { return contains(g.avail2, p) }
+
+var mentionRe = regexp.MustCompile(`(^| )[ng]:([0-9]+):`)
+
+// noteUnimported tags a signature that sits outside x.go (sibling package or y.go) by the kinds of
+// packages it mentions that x.go does not import.
+func (g *gen) noteUnimported(sig string) bool {
+	any := false
+	for _, m := range mentionRe.FindAllStringSubmatch(sig, -1) {
+		p, _ := strconv.Atoi(m[2])
+		if p == pkTgt || g.has(p) {
+			continue
+		}
+		any = true
+		switch p {
+		case pkCtx:
+			g.tag("unimported:stdlib")
+		case pkDeep, pkRen:
+			g.tag("unimported:sibling-plain-name")
+		case pkThird, pkOdd:
+			g.tag("unimported:dir-differs")
 		}
 	}
-	return false
+	return any
 }
 
 var basics = []string{"int", "string", "bool", "float64", "byte", "rune", "uint8", "int64", "any", "error", "uint", "complex128"}
@@ -72,7 +94,7 @@ func (g *gen) rty(depth int, pk []int) string {
 			}
 			return "n:0:" + n
 		default:
-			g.tag(map[int]string{pkSib: "plain-import", pkRen: "renamed-import", pkOdd: "dir-differs-import", pkDeep: "unimported-pkg", pkClash: "name-clash-import"}[p])
+			g.tag(map[int]string{pkSib: "plain-import", pkRen: "renamed-import", pkOdd: "dir-differs-import", pkDeep: "third-pkg-plain", pkThird: "third-pkg-dir-differs", pkClash: "name-clash-import"}[p])
 			n := g.pick([]string{"T", "Rec", "Al"})
 			if n == "Al" {
 				g.tag("alias")
@@ -207,15 +229,33 @@ type embTy struct {
 	pkg   int
 	name  string
 	iface bool
+	file2 bool
 }
 
 // program builds one case.
+//
+// Beyond what the quantifier's single target file imports, two classes reach packages that the
+// file handed to LoadPackages does NOT import (the `else` branch of addNamed):
+//   - (i)  embedded types declared in sibling packages whose (promoted) methods mention third
+//     packages: context (when x.go does not import it), scratch/deep (plain name) and
+//     scratch/third/v3 (`package third`, directory != package clause);
+//   - (ii) a target package of two files, x.go (handed to LoadPackages) and y.go with a different
+//     import set (more packages, other names for the same packages); structs, embedded types and
+//     their methods may live in y.go.
+//
+// `shape` cycles with the case number so that every quick run has forced witnesses of both.
 func genProgram(r *rand.Rand, id int, domain bool) (lines []string, tags []string, nontrivial bool) {
 	g := &gen{r: r, domain: domain, tags: map[string]bool{}}
 	if !domain {
-		g.drift = []string{"three-levels", "unimported-pkg", "other-types"}[r.Intn(3)]
+		g.drift = []string{"three-levels", "unimported-clash", "other-types"}[r.Intn(3)]
 		g.tag("drift-" + g.drift)
 	}
+	shape := [...]int{0, 1, 2, 1, 2}[id%5]
+	if g.drift == "unimported-clash" {
+		shape = 1
+	}
+	withThird := shape != 0 || r.Intn(2) == 0
+	withFile2 := shape == 2 || r.Intn(4) == 0
 	g.lines = append(g.lines, fmt.Sprintf("case gcm %d", id))
 	// packages and the target file's imports
 	renAlias := g.pick([]string{"rn", "r2", "sibx", "odd"})
@@ -249,25 +289,40 @@ func genProgram(r *rand.Rand, id int, domain bool) (lines []string, tags []strin
 	if renAlias == oddBound || renAlias == clashName {
 		renAlias = "rn"
 	}
+	hasCtx := r.Intn(5) != 0
+	hasRen := r.Intn(4) != 0
+	hasOdd := oddStyle != oddPlain || r.Intn(4) != 0
+	// a package x.go does not import is referred to by its DECLARED name (addNamed); inside the
+	// domain that name is not one x.go already binds to something else (the out-of-domain class
+	// `unimported-clash` does exactly that)
+	if !hasOdd && renAlias == oddName {
+		renAlias = "rn"
+	}
+	clashThird := pkDeep
+	if g.drift == "unimported-clash" {
+		hasRen = true
+		clashThird = []int{pkDeep, pkThird}[r.Intn(2)]
+		renAlias = map[int]string{pkDeep: "deep", pkThird: "third"}[clashThird]
+	}
 	g.emit("pkg 0 scratch/tgt tgt")
 	g.emit("pkg 1 context context")
 	g.emit("pkg 2 scratch/sib sib")
 	g.emit("pkg 3 scratch/ren ren")
 	g.emit("pkg 4 %s %s", oddPath, oddName)
-	if g.drift == "unimported-pkg" {
+	if withThird {
 		g.emit("pkg 5 scratch/deep deep")
+		g.emit("pkg 7 scratch/third/v3 third")
 	}
 	g.avail = []int{pkTgt, pkSib}
 	g.emit("imp 2 -")
-	if r.Intn(5) != 0 {
+	if hasCtx {
 		g.avail = append(g.avail, pkCtx)
 		g.emit("imp 1 -")
 	}
-	if r.Intn(4) != 0 {
+	if hasRen {
 		g.avail = append(g.avail, pkRen)
 		g.emit("imp 3 %s", renAlias)
 	}
-	hasOdd := oddStyle != oddPlain || r.Intn(4) != 0
 	if hasOdd {
 		g.avail = append(g.avail, pkOdd)
 		if oddAlias == "" {
@@ -288,6 +343,68 @@ func genProgram(r *rand.Rand, id int, domain bool) (lines []string, tags []strin
 			g.tag("clash-with-pkg-name")
 		}
 	}
+	// the second file of the target package and ITS imports: other packages, other names
+	var extra2 []int // imported by y.go, not by x.go
+	if withFile2 {
+		g.tag("second-file")
+		bound := map[string]bool{}
+		g.avail2 = []int{pkTgt}
+		imp2 := func(p int, decl string, names []string) {
+			al := g.pick(names)
+			b := al
+			if al == "-" {
+				b = decl
+			}
+			if bound[b] {
+				al, b = fmt.Sprintf("q%d", p), fmt.Sprintf("q%d", p)
+			}
+			bound[b] = true
+			g.avail2 = append(g.avail2, p)
+			g.emit("imp2 %d %s", p, al)
+			if !g.has(p) {
+				extra2 = append(extra2, p)
+				g.tag("second-file-extra-import")
+			} else if al != "-" {
+				g.tag("second-file-other-name")
+			}
+		}
+		imp2(pkSib, "sib", []string{"-", "-", "sb"})
+		forced := -1
+		if shape == 2 {
+			// at least one package that only y.go imports
+			cands := []int{pkDeep, pkThird}
+			if !hasCtx {
+				cands = append(cands, pkCtx)
+			}
+			if !hasRen {
+				cands = append(cands, pkRen)
+			}
+			if !hasOdd {
+				cands = append(cands, pkOdd)
+			}
+			forced = cands[r.Intn(len(cands))]
+		}
+		// (pool A signatures may sit on a y.go type: y.go imports what they mention)
+		if forced == pkCtx || hasCtx || r.Intn(3) != 0 {
+			imp2(pkCtx, "context", []string{"-"})
+		}
+		if forced == pkRen || r.Intn(3) != 0 {
+			names := []string{"-", "rz"}
+			if hasRen {
+				names = append(names, renAlias)
+			}
+			imp2(pkRen, "ren", names)
+		}
+		if forced == pkOdd || r.Intn(2) == 0 {
+			imp2(pkOdd, oddName, []string{"-", "oy", oddBase})
+		}
+		if withThird && (forced == pkDeep || r.Intn(2) == 0) {
+			imp2(pkDeep, "deep", []string{"-", "-", "dp"})
+		}
+		if withThird && (forced == pkThird || r.Intn(2) == 0) {
+			imp2(pkThird, "third", []string{"-", "v3", "third", "t3"})
+		}
+	}
 	// named types of every package
 	g.emit("def 0 ID named b:int")
 	g.emit("def 0 Rec named o:struct{}")
@@ -296,8 +413,8 @@ func genProgram(r *rand.Rand, id int, domain bool) (lines []string, tags []strin
 	g.emit("def 0 AliasID alias n:0:ID")
 	g.emit("def 0 SibAlias alias n:2:Rec")
 	others := []int{pkSib, pkRen, pkOdd}
-	if g.drift == "unimported-pkg" {
-		others = append(others, pkDeep)
+	if withThird {
+		others = append(others, pkDeep, pkThird)
 	}
 	if hasClash {
 		others = append(others, pkClash)
@@ -308,18 +425,32 @@ func genProgram(r *rand.Rand, id int, domain bool) (lines []string, tags []strin
 		g.emit("def %d Box generic 1", q)
 		g.emit("def %d Al alias n:%d:T", q, q)
 	}
-	// signatures of the overlapping method names: two variants per name; they mention only
-	// basics, context and sib (which every package may import without a cycle)
-	poolPk := []int{pkSib}
-	if g.has(pkCtx) || g.drift == "unimported-pkg" {
-		poolPk = append(poolPk, pkCtx)
+	// signatures of the overlapping method names, two variants per name.  Pool A mentions only
+	// basics, sib and (if x.go imports it) context, so a type of any package and file may carry it.
+	// Pool X is for types declared in SIBLING packages: it also mentions context when x.go does not
+	// import it, and the third packages deep / third (no import cycle: they import nothing).
+	poolA := []int{pkSib}
+	if hasCtx {
+		poolA = append(poolA, pkCtx)
 	}
-	if g.drift == "unimported-pkg" {
-		poolPk = append(poolPk, pkDeep, pkDeep)
+	poolX := []int{pkSib, pkCtx, pkCtx}
+	if withThird {
+		poolX = append(poolX, pkDeep, pkDeep, pkThird, pkThird)
 	}
-	poolSig := map[string][2]string{}
+	sigA, sigX := map[string][2]string{}, map[string][2]string{}
+	// an interface type may embed interfaces of other packages; duplicate method names must then
+	// agree on the signature, so every name has ONE signature for all interface types - from pool X
+	// for some names, which target-package interfaces then do not declare
+	ifaceX := map[string]bool{}
 	for _, n := range append(append([]string{}, embPool...), embPrivPool...) {
-		poolSig[n] = [2]string{g.rsig(1, poolPk, true), g.rsig(1, poolPk, true)}
+		sigA[n] = [2]string{g.rsig(1, poolA, true), g.rsig(1, poolA, true)}
+		sigX[n] = [2]string{g.rsig(1, poolX, true), g.rsig(1, poolX, true)}
+		ifaceX[n] = exported(n) && r.Intn(2) == 0
+	}
+	var pk2 []int // what a signature written in y.go may mention
+	if withFile2 {
+		pk2 = append(pk2, g.avail2...)
+		pk2 = append(pk2, extra2...) // twice as likely
 	}
 	// level-2 then level-1 embedded types
 	mk := func(name string, level int, below []embTy) embTy {
@@ -331,19 +462,21 @@ func genProgram(r *rand.Rand, id int, domain bool) (lines []string, tags []strin
 			}
 		}
 		if level > 0 {
-			pkChoices = append(pkChoices, pkSib)
+			pkChoices = append(pkChoices, pkSib, pkSib)
 		}
 		e.pkg = pkChoices[r.Intn(len(pkChoices))]
-		if g.drift == "unimported-pkg" {
-			e.pkg = pkSib // the only place that may mention package deep
-		}
 		e.iface = r.Intn(3) == 0
+		e.file2 = e.pkg == pkTgt && withFile2 && r.Intn(3) == 0
 		kind := "struct"
 		if e.iface {
 			kind = "iface"
 			g.tag("embedded-interface")
 		}
 		g.emit("ty %d %s %s", e.pkg, name, kind)
+		if e.file2 {
+			g.emit("in2 %s", name)
+			g.tag("second-file-embedded-type")
+		}
 		// embedded fields of this embedded type
 		for _, b := range below {
 			if r.Intn(2) == 0 {
@@ -352,11 +485,15 @@ func genProgram(r *rand.Rand, id int, domain bool) (lines []string, tags []strin
 			if e.iface && !b.iface {
 				continue
 			}
-			// no import cycles: sib imports nothing; ren/odd may import sib only; tgt anything
+			// no import cycles: sib imports nothing of ours; ren/odd may import sib only; tgt anything
+			// its file imports
 			if e.pkg != pkTgt && b.pkg != e.pkg && b.pkg != pkSib {
 				continue
 			}
 			if e.pkg == pkSib && b.pkg != pkSib {
+				continue
+			}
+			if e.file2 && !g.has2(b.pkg) {
 				continue
 			}
 			ptr := "v"
@@ -371,18 +508,39 @@ func genProgram(r *rand.Rand, id int, domain bool) (lines []string, tags []strin
 		if e.pkg == pkTgt {
 			pool = append(pool, embPrivPool...)
 		}
+		if e.iface && e.pkg == pkTgt {
+			var keep []string
+			for _, n := range pool {
+				if !ifaceX[n] {
+					keep = append(keep, n)
+				}
+			}
+			pool = keep
+		}
 		r.Shuffle(len(pool), func(i, j int) { pool[i], pool[j] = pool[j], pool[i] })
 		nm := 1 + r.Intn(3)
+		if nm > len(pool) {
+			nm = len(pool)
+		}
 		for _, m := range pool[:nm] {
-			v := 0
-			if !e.iface {
-				v = r.Intn(2)
-			}
 			recv := g.pick([]string{"p", "v"})
-			if e.iface {
-				recv = "v"
+			var sig string
+			switch {
+			case e.iface && ifaceX[m]:
+				recv, sig = "v", sigX[m][0]
+			case e.iface:
+				recv, sig = "v", sigA[m][0]
+			case e.pkg != pkTgt && r.Intn(2) == 0:
+				sig = sigX[m][r.Intn(2)]
+			case e.file2 && r.Intn(2) == 0:
+				sig = g.rsig(1, pk2, true)
+			default:
+				sig = sigA[m][r.Intn(2)]
 			}
-			g.emit("meth %d %s %s %s %s", e.pkg, name, m, recv, poolSig[m][v])
+			if (e.pkg != pkTgt || e.file2) && g.noteUnimported(sig) {
+				g.tag("embedded-method-mentions-unimported")
+			}
+			g.emit("meth %d %s %s %s %s", e.pkg, name, m, recv, sig)
 		}
 		return e
 	}
@@ -398,6 +556,69 @@ func genProgram(r *rand.Rand, id int, domain bool) (lines []string, tags []strin
 	for i := 0; i < 2+r.Intn(2); i++ {
 		l1 = append(l1, mk(fmt.Sprintf("E%d", i+1), 2, l2))
 	}
+	// class (i), forced: a type of a sibling package that x.go imports plainly / under a rename /
+	// from a directory unlike its package clause, with a method of a name nobody else has, whose
+	// parameters and results come from packages x.go never mentions.  Struct S0 embeds it.
+	var forcedEmb *embTy
+	if shape == 1 {
+		hosts := []int{pkSib}
+		for _, p := range g.avail {
+			if p == pkRen || p == pkOdd {
+				hosts = append(hosts, p, p)
+			}
+		}
+		e := embTy{pkg: hosts[r.Intn(len(hosts))], name: "X1", iface: r.Intn(3) == 0}
+		kind := "struct"
+		if e.iface {
+			kind = "iface"
+		}
+		g.tag(map[int]string{pkSib: "unimported-via-plain-sibling", pkRen: "unimported-via-renamed-sibling", pkOdd: "unimported-via-dir-differs-sibling"}[e.pkg])
+		g.emit("ty %d X1 %s", e.pkg, kind)
+		var cand []string
+		if !hasCtx {
+			cand = append(cand, "n:1:Context")
+		}
+		cand = append(cand, "n:5:T", "p n:5:Rec", "g:5:Box:1 b:int", "s n:5:Al", "n:7:T", "m b:string n:7:Rec", "g:7:Box:1 n:5:T", "p n:7:Al")
+		if g.drift == "unimported-clash" {
+			cand = []string{fmt.Sprintf("n:%d:T", clashThird), fmt.Sprintf("p n:%d:Rec", clashThird)}
+		}
+		nmStyle := g.pick([]string{"-", "_", "k"})
+		nm := func(i int) string {
+			if nmStyle == "k" {
+				return fmt.Sprintf("k%d", i)
+			}
+			return nmStyle
+		}
+		var parts []string
+		np := 0
+		if r.Intn(2) == 0 {
+			parts = append(parts, nm(np)+" n:1:Context")
+			np++
+			g.tag("ctx-first")
+		}
+		for k := 1 + r.Intn(2); k > 0; k-- {
+			parts = append(parts, nm(np)+" "+g.pick(cand))
+			np++
+		}
+		nr := 0
+		for k := r.Intn(2); k > 0; k-- {
+			parts = append(parts, "- "+g.pick(cand))
+			nr++
+		}
+		if r.Intn(2) == 0 {
+			parts = append(parts, "- b:error")
+			nr++
+		}
+		sig := fmt.Sprintf("f:%d:0:%d %s", np, nr, strings.Join(parts, " "))
+		g.noteUnimported(sig)
+		g.tag("embedded-method-mentions-unimported")
+		recv := g.pick([]string{"p", "v"})
+		if e.iface {
+			recv = "v"
+		}
+		g.emit("meth %d X1 Via3 %s %s", e.pkg, recv, sig)
+		forcedEmb = &e
+	}
 	// target structs
 	ns := 2 + r.Intn(3)
 	var targets []string
@@ -405,6 +626,12 @@ func genProgram(r *rand.Rand, id int, domain bool) (lines []string, tags []strin
 		name := fmt.Sprintf("S%d", s)
 		targets = append(targets, name)
 		g.emit("ty 0 %s struct", name)
+		// S0 stays in x.go; in a two-file package S1 is in y.go when forced, others at random
+		inFile2 := withFile2 && s > 0 && ((shape == 2 && s == 1) || r.Intn(3) == 0)
+		if inFile2 {
+			g.emit("in2 %s", name)
+			g.tag("second-file-struct")
+		}
 		perm := r.Perm(len(l1))
 		ne := r.Intn(len(l1) + 1)
 		if s == 0 {
@@ -412,12 +639,23 @@ func genProgram(r *rand.Rand, id int, domain bool) (lines []string, tags []strin
 		}
 		for _, k := range perm[:ne] {
 			e := l1[k]
+			if inFile2 && !g.has2(e.pkg) {
+				continue
+			}
 			ptr := "v"
 			if !e.iface && r.Intn(3) == 0 {
 				ptr = "p"
 				g.tag("embedded-pointer")
 			}
 			g.emit("emb 0 %s %s %d %s", name, ptr, e.pkg, e.name)
+			nontrivial = true
+		}
+		if forcedEmb != nil && (s == 0 || (!inFile2 && r.Intn(2) == 0)) {
+			ptr := "v"
+			if !forcedEmb.iface && r.Intn(3) == 0 {
+				ptr = "p"
+			}
+			g.emit("emb 0 %s %s %d %s", name, ptr, forcedEmb.pkg, forcedEmb.name)
 			nontrivial = true
 		}
 		pool := append([]string{}, ownPool...)
@@ -428,7 +666,29 @@ func genProgram(r *rand.Rand, id int, domain bool) (lines []string, tags []strin
 		r.Shuffle(len(pool), func(i, j int) { pool[i], pool[j] = pool[j], pool[i] })
 		nm := 1 + r.Intn(8)
 		for _, m := range pool[:nm] {
+			if inFile2 {
+				sig := g.rsig(2, pk2, true)
+				if g.noteUnimported(sig) {
+					g.tag("own-method-in-second-file-mentions-unimported")
+				}
+				g.emit("meth 0 %s %s %s %s", name, m, g.pick([]string{"p", "v"}), sig)
+				continue
+			}
 			g.emit("meth 0 %s %s %s %s", name, m, g.pick([]string{"p", "v"}), g.rsig(2, g.avail, true))
+		}
+		// class (ii), forced: a method written in y.go that mentions a package only y.go imports
+		if inFile2 && len(extra2) > 0 && (shape == 2 && s == 1 || r.Intn(2) == 0) {
+			q := extra2[r.Intn(len(extra2))]
+			t := fmt.Sprintf("n:%d:T", q)
+			if q == pkCtx {
+				t = "n:1:Context"
+			} else {
+				t = g.pick([]string{t, fmt.Sprintf("p n:%d:Rec", q), fmt.Sprintf("s n:%d:Al", q), fmt.Sprintf("g:%d:Box:1 b:int", q), fmt.Sprintf("m b:string n:%d:T", q)})
+			}
+			sig := fmt.Sprintf("f:1:0:1 %s %s - %s", g.pick([]string{"-", "_", "v"}), t, g.pick([]string{t, "b:error"}))
+			g.noteUnimported(sig)
+			g.tag("own-method-in-second-file-mentions-unimported")
+			g.emit("meth 0 %s ViaFile2 %s %s", name, g.pick([]string{"p", "v"}), sig)
 		}
 		// the first struct always mentions a type of the dir-differs package (and of the
 		// clashing one) in a method of its own, so that both imports are active and printed
@@ -441,6 +701,10 @@ func genProgram(r *rand.Rand, id int, domain bool) (lines []string, tags []strin
 			}
 			g.emit("meth 0 %s ViaOdd %s %s", name, g.pick([]string{"p", "v"}), sig)
 			g.tag("dir-differs-import")
+		}
+		if s == 0 && g.drift == "unimported-clash" {
+			// x.go binds the unimported package's declared name to another package and uses it
+			g.emit("meth 0 %s ViaRen v f:1:0:0 - n:3:T", name)
 		}
 	}
 	for _, t := range targets {
@@ -456,3 +720,5 @@ func genProgram(r *rand.Rand, id int, domain bool) (lines []string, tags []strin
 	sortStrings(tags)
 	return g.lines, tags, nontrivial || g.tags["params-unnamed"]
 }
+
+func exported(n string) bool { return n != "" && n[0] >= 'A' && n[0] <= 'Z' }
